@@ -32,7 +32,7 @@ func H07_seq() {
 	var seg segment.Segment = segI
 	hits := sp.fieldPost("f").termPost("a").hits
 	variant := vChoice("variant", vParam("variants", 3)) // 0 built, 1 merged+opened (single-hit entries arise), 2 prealloc reuse
-	if variant == 1 {
+	if variant == 1 || variant == 5 {
 		_, _, err := z.Merge([]segment.Segment{segI}, []*roaring.Bitmap{nil}, vP("m.zap"), nil, nil)
 		vAssert(err == nil, "merge")
 		seg, err = z.Open(vP("m.zap"))
@@ -64,8 +64,9 @@ func H07_seq() {
 	vAssert(err == nil, "dict")
 	var prePL segment.PostingsList
 	var preIt segment.PostingsIterator
-	if variant == 2 {
-		// objects used before on another field / term, partially iterated
+	if variant == 2 || variant == 5 {
+		// objects used before on another field / term, partially iterated (variant 5: on the merged segment, where
+		// the earlier list is general-encoded and the next one may be a single-hit entry)
 		d2, _ := seg.Dictionary("g")
 		prePL, err = d2.PostingsList([]byte("b"), nil, nil)
 		vAssert(err == nil, "pre-pl")
